@@ -404,6 +404,9 @@ startCommand:
 		br.insLen = int(rec.ins.base) + int(insExtra)
 		br.cpyLen = int(rec.cpy.base) + int(cpyExtra)
 		br.distZero = iacSym < 128
+		if br.insLen > br.blkLen {
+			errors.Panic(errCorrupted) // Insert length exceeds the meta-block length
+		}
 		if br.insLen > 0 {
 			goto readLiterals
 		}
@@ -506,6 +509,9 @@ readDistance:
 copyDynamicDict:
 	// Copy a string from the past uncompressed data according to RFC section 2.
 	{
+		if br.cpyLen > br.blkLen {
+			errors.Panic(errCorrupted) // Copy length exceeds the meta-block length
+		}
 		cnt := br.dict.WriteCopy(br.dist, br.cpyLen)
 		br.blkLen -= cnt
 		br.cpyLen -= cnt
@@ -536,6 +542,9 @@ copyStaticDict:
 			}
 			cnt := transformWord(br.wordBuf[:], baseWord, transformIdx)
 			br.word = br.wordBuf[:cnt]
+			if cnt > br.blkLen {
+				errors.Panic(errCorrupted) // Word length exceeds the meta-block length
+			}
 		}
 
 		buf := br.dict.WriteSlice()
